@@ -73,6 +73,15 @@ type BRObs struct {
 	W         BRCloneSet `json:"w"`
 	Finalizer bool       `json:"finalizer"`
 	Requeue   bool       `json:"requeue"`
+	// how the Rollout controller's harness (rolloutsm: readBR) reads the same object: consistent, batch Ready, current batch, completed
+	View *BRView `json:"view,omitempty"`
+}
+
+type BRView struct {
+	Consistent bool `json:"consistent"`
+	StateReady bool `json:"state_ready"`
+	Batch      int  `json:"batch"`
+	Completed  bool `json:"completed"`
 }
 
 type brexecEngine struct{}
@@ -334,6 +343,8 @@ func (brexecEngine) Run(inAny any) (res any) {
 				obs.Finalizer = true
 			}
 		}
+		v := readBR(after)
+		obs.View = &BRView{Consistent: v.Consistent, StateReady: v.StateReady, Batch: v.Batch, Completed: v.Completed}
 	}
 	obs.W = in.W
 	if in.W.Exists {
@@ -389,6 +400,10 @@ func (brexecEngine) Coq(inAny any, obsAny any) string {
 		part = emit.Some(emit.Z(int64(*in.Partition)))
 	}
 	spec := emit.App("Build_br_spec", emit.ListOf(in.Plan, IOS.Coq), part, optIOS(in.FT), emit.Str("current"), emit.Bool(in.Deleting), emit.Bool(in.Finalizer), emit.Z(int64(in.Generation)))
-	o := emit.App("Build_br_obs", emit.Bool(obs.Panic != ""), emit.Bool(obs.Err != ""), emit.Bool(obs.Gone), coqBRStatus(obs.Status), coqBRCloneSet(obs.W), emit.Bool(obs.Finalizer), emit.Bool(obs.Requeue))
+	view := "None"
+	if obs.View != nil {
+		view = emit.Some("(" + emit.Bool(obs.View.Consistent) + ", " + emit.Bool(obs.View.StateReady) + ", " + emit.Z(int64(obs.View.Batch)) + ", " + emit.Bool(obs.View.Completed) + ")")
+	}
+	o := emit.App("Build_br_obs", emit.Bool(obs.Panic != ""), emit.Bool(obs.Err != ""), emit.Bool(obs.Gone), coqBRStatus(obs.Status), coqBRCloneSet(obs.W), emit.Bool(obs.Finalizer), emit.Bool(obs.Requeue), view)
 	return "(" + spec + ", " + coqBRStatus(in.Status) + ", " + coqBRCloneSet(in.W) + ", " + o + ")"
 }
